@@ -11,6 +11,7 @@ import tempfile
 from pathlib import Path
 from typing import Any, Dict, List, Optional, Tuple
 
+from harness.extract import isolation_reset as x_ir
 from harness.extract import sharedstate as x_ss
 from harness.lib import scen
 from harness.lib.core import VERIF, Ctx, Rng, lean_lock, run_driver, shrink_ops
@@ -255,6 +256,7 @@ def _shrink_schedule(cfg_a, cfg_b, schedule, channels) -> List[Tuple]:
 def run(ctx: Ctx):
     with lean_lock():
         ctx.extract("SharedState", x_ss.emit)
+        ctx.extract("IsolationReset", x_ir.emit)
         ctx.prove(MODULES, exes=[EXE], leanchecker=ctx.thorough)
     ctx.cov["rule"] = ("(a) one case = scenario x action map x dirty history (1-3 episodes of generated actions) x later action sequence; every compared "
                        "step (observation, reward, flags, every agent's action/request/response, whole describe_state) is one evaluation. "
@@ -273,6 +275,7 @@ def run(ctx: Ctx):
     ctx.oblige("extractor cross-check: every ClassVar of the loaded classes is an inventory entry", "extractor", not missing, f"missing: {missing[:8]}")
     ctx.cov["classvars_seen_at_runtime"] = len(rt)
     before = snapshot_import_only(inv)
+    iso.pin_opaque_widths()
 
     rng = ctx.rng.fork("c04")
     model_lines: List[str] = []
@@ -308,6 +311,8 @@ def run(ctx: Ctx):
         for i, op in enumerate(r["later"]):
             ctx.case({"k": "dirty", "sc": label, "d": r["digest"], "i": i}, op[0] == "reset" or op[1] != 0)
         ctx.count("dirty:history-ops", len(r["history"]))
+        for key, n in r.get("dirtied", {}).items():
+            ctx.count("dirty:" + key, n)
         if r["diff"] is not None:
             d = r["diff"]
             ctx.violation({"kind": "reset-not-fresh", "component": d["component"], "where": "/".join(str(d.get("path", "")).split("/")[:4])},
